@@ -1414,6 +1414,32 @@ class Rules:
                                 break
                         if bad:
                             break
+                    # dual clause: a whitespace character consumed in this iteration lies *behind* the mark, i.e. the
+                    # mark was placed before it was consumed (otherwise the text token in front of the mark ends
+                    # with that whitespace: `1\n` instead of `1` + hidden WS)
+                    from . import lea_prims
+                    q = None
+                    if isinstance(m, Term) and m.op == "optmark":
+                        q = m.args[0].v
+                    elif isinstance(m, Enum) and m.variant == "Some" and m.args and isinstance(m.args[0], Tup) and m.args[0].items:
+                        sn = lea_prims.snap_of(m.args[0].items[0])
+                        if sn is not None and sn[1] == "main" and sn[3] == 0:
+                            q = sn[2]
+                    if q is not None:
+                        late = None
+                        for c in cur:
+                            chars = c.d.get("chars")
+                            if chars and c.d.get("pos") is not None and q > c.d["pos"] and \
+                                    all(st.cf(ch).decide(("p", "is_whitespace")) is True for ch in chars):
+                                late = c
+                                break
+                        key2 = "%s|ws-before-mark" % short_fn(seg.name)
+                        I.ob("R-MARK-WS", key2, late is None, self.sites.where(late) if late else "",
+                             "whitespace consumed in the iteration lies behind the pending mark" if late is None else
+                             "a scanner iteration consumes a whitespace character (%s) and places the whitespace mark only "
+                             "after it: the text token emitted at the mark ends with that whitespace instead of leaving it "
+                             "to the hidden WS token; conditions: %s"
+                             % (self.sites.key(late), "; ".join(st.conds[-4:])[:240]))
                     key = "%s|iteration" % short_fn(seg.name)
                     self.bump("R-MARK-WS", "scanners", short_fn(seg.name))
                     I.ob("R-MARK-WS", key, bad is None, self.sites.where(bad) if bad else "",
